@@ -665,6 +665,9 @@ def run(run, tier, replay=None):
                 "(build/gen_names.json `spellings`): utils.PythonIdentifier of every candidate and spelling is compared with Names.python_identifier in Coq on every run (all tiers); thorough: every "
                 "spelling x every regular placement; quick: every underscore-prefixed spelling and a quarter of the others in one model / query-with-body / path placement, and all placements for "
                 "spellings whose python name disagrees with the model. A spelling whose python name (implementation == model) is N generates N's code: its captures count as N's. "
+                "Twin placements (every candidate N that has a twin T with the same python name before de-confliction: From / from, Class / class, HTTPStatus / http_status, UNSET / unset): N and T as "
+                "raw-name pair (model, query) and as sibling properties of a model REFINED through allOf - {untyped->string, string->date, number->integer, string->enum} x {general first, refined first} x "
+                "{N or T redefined} x {inline members, $ref parent} (thorough: all 32; quick: 8 covering combinations), compared with the twin control ZqNeutral / zq_neutral. "
                 "Non-trivial = the candidate is not the control; distinct by (name, placement).")
     t0 = time.time()
     with cf.ProcessPoolExecutor(max_workers=14) as ex:
@@ -722,7 +725,10 @@ def run(run, tier, replay=None):
                     n_ctrl_bad += 1
                     ev = [p[1] for p in r["problems"]] + [m[1] + ": " + json.dumps(m[0].get("res"))[:300] for m in r["bmis"]]
                     run.violation("correspondence", {"name": u["name"], "placement": pls, "evidence": ev[:3], "doc": build_doc(renumber([u])),
-                                                     "note": "the NEUTRAL control name does not behave like the proved models: not a capture; the templates or the models changed"})
+                                                     "note": ("two sibling names that differ only by case / delimiters (ZqNeutral / zq_neutral: same python name before de-confliction) no longer come out as two "
+                                                              "distinct, working attributes / arguments - the de-confliction of python names depends on how the document spells or refines them"
+                                                              if u["pl"][0] in TWIN_PLACEMENTS else
+                                                              "the NEUTRAL control name does not behave like the proved models: not a capture; the templates or the models changed")})
                 continue
             n_units += 1
             fam = "model" if u["pl"][0] in ("model", "modelraw", "multipart", "allof") else "endpoint"
@@ -772,7 +778,9 @@ def run(run, tier, replay=None):
         pls = sorted({h[0] for h in hits})
         what = f"document name {name!r} ({scope}) placed as {', '.join(pls[:6])}{' ...' if len(pls) > 6 else ''}: {hits[0][1][0][:420]}"
         wit = (run.known.get(fid) or {}).get("witness") or {}
-        extra_pl = [h for h in hits if h[0] not in set(wit.get("placements") or [])]
+        allowed = set(wit.get("placements") or [])
+        fams = tuple(a[:-1] for a in allowed if a.endswith(":*"))          # "allof:*" = every allOf-refinement placement
+        extra_pl = [h for h in hits if h[0] not in allowed and not (fams and h[0].startswith(fams))]
         if fid in run.known and not extra_pl and run.known_finding(fid, what):
             listed.append(fid)
         elif fid in run.known and extra_pl:
